@@ -129,6 +129,8 @@ pub enum Op {
     RemMember { r: usize, grp: Obj, member: Uuid },
     SetManager { r: usize, obj: Obj, target: Option<Uuid> },
     ScopeMap { r: usize, oauth: Obj, grp: Uuid, remove: bool },
+    /// map a group under one of two claim names on the OAuth2 client
+    ClaimMap { r: usize, oauth: Obj, claim: u8, grp: Uuid, remove: bool },
     DynFilter { r: usize, grp: Obj, filter: u8 },
     Delete { r: usize, obj: Obj },
     Revive { r: usize, obj: Obj },
@@ -168,6 +170,7 @@ impl Op {
             Op::RemMember { .. } => "rem_member",
             Op::SetManager { .. } => "set_manager",
             Op::ScopeMap { .. } => "scope_map",
+            Op::ClaimMap { .. } => "claim_map",
             Op::DynFilter { .. } => "dyn_filter",
             Op::Delete { .. } => "delete",
             Op::Revive { .. } => "revive",
@@ -201,6 +204,7 @@ impl Op {
             | Op::RemMember { r, .. }
             | Op::SetManager { r, .. }
             | Op::ScopeMap { r, .. }
+            | Op::ClaimMap { r, .. }
             | Op::DynFilter { r, .. }
             | Op::Delete { r, .. }
             | Op::Revive { r, .. }
@@ -671,6 +675,18 @@ impl World {
                         Attribute::OAuth2RsScopeMap,
                         Value::new_oauthscopemap(*grp, ["openid".to_string()].into_iter().collect())
                             .ok_or_else(|| "scopemap".to_string())?,
+                    )
+                };
+                wr.internal_modify_uuid(oauth.uuid(), &ModifyList::new_list(vec![m])).map_err(e2s)?;
+            }
+            Op::ClaimMap { oauth, claim, grp, remove, .. } => {
+                let name = ["claim_a", "claim_b"][*claim as usize % 2].to_string();
+                let m = if *remove {
+                    Modify::Removed(Attribute::OAuth2RsClaimMap, PartialValue::OauthClaim(name, *grp))
+                } else {
+                    Modify::Present(
+                        Attribute::OAuth2RsClaimMap,
+                        Value::new_oauthclaimmap(name, *grp, ["value_x".to_string()].into_iter().collect()).ok_or_else(|| "claimmap".to_string())?,
                     )
                 };
                 wr.internal_modify_uuid(oauth.uuid(), &ModifyList::new_list(vec![m])).map_err(e2s)?;
